@@ -495,11 +495,17 @@ class RecordingEvents:
 
 
 class SecondEvents:
-    """A second event manager behind RecordingEvents in the chart's list: never suspends, never raises; records
-    `cb2_*` events.  Every manager has to see the same lifecycle, whatever the managers before it do."""
+    """A second event manager behind RecordingEvents in the chart's list: never raises, suspends only when the
+    case asks for it (gate_events2); records `cb2_*` events.  Every manager has to see the same lifecycle, whatever the managers before it do."""
 
     async def _cb(self, name, ctx, node_id=None, **data):
-        S.ev('cb2_' + name, ctx.pipeline_id, _nid(node_id) if node_id is not None else None, **data)
+        s = S
+        run = ctx.pipeline_id
+        s.ev('cb2_' + name, run, _nid(node_id) if node_id is not None else None, **data)
+        g2 = getattr(s, 'gate_events2', 0.0)
+        if not s.real and g2 and s.rng.random() < g2:
+            await gate(('cb2', run, name, node_id))
+            s.ev('cb2_resume', run, _nid(node_id) if node_id is not None else None, cb=name)
 
     async def on_pipeline_start(self, ctx):
         await self._cb('pipeline_start', ctx)
